@@ -7,9 +7,8 @@
  *  -DDMG=mask        (C20) positions of ORDER whose payload gets a symbolic non-zero damage
  *  -DHDRDMG=pos,-DHDRFIELD=f  (C20) re-sealed header field edit at position pos
  *  -DUFCRC           CRCs uninterpreted (needed for DMG / ct=CRC32 validation paths)
- * Fragment buffers are exact-size heap objects; their 16-byte alignment is nondeterministic in
- * CBMC's memory model, so both the aligned and the copy-to-aligned path are explored for every
- * fragment. */
+ *  -DUNALIGN=mask     positions of ORDER handed over at offset 1 of their object (not 16-byte aligned)
+ * Fragment buffers are exact-size heap objects (one spare leading byte for the unaligned ones). */
 #include "vh.h"
 #include "inst.h"
 #include "ref_format.h"
@@ -36,6 +35,9 @@
 #ifndef DMG
 #define DMG 0
 #endif
+#ifndef UNALIGN
+#define UNALIGN 0
+#endif
 #ifndef DMGPOS
 #define DMGPOS 0
 #endif
@@ -55,7 +57,10 @@ int main(void)
     char *frags[NF + 1];
     static uint8_t saved[NF + 1][FLEN];
     for (int i = 0; i < NF; i++) {
-        uint8_t *b = malloc(FLEN);
+        /* CBMC's pointer-to-integer conversion puts the offset in the low bits, so a fresh object is
+         * always "16-byte aligned"; the copy-to-aligned path is reached by handing the library a
+         * pointer at offset 1 of a one-byte-larger object (positions selected by -DUNALIGN) */
+        uint8_t *b = ((UNALIGN >> i) & 1) ? (uint8_t *)malloc(FLEN + 1) + 1 : (uint8_t *)malloc(FLEN);
         ASSUME(b != NULL);
 #ifdef UFCRC
 #ifdef UFCONST
@@ -163,7 +168,7 @@ int main(void)
         int same = 1;
         for (int j = 0; j < FLEN; j++) same &= ((uint8_t)frags[i][j] == saved[i][j]);
         CHECK(same, "the call modified an input fragment");
-        free(frags[i]);
+        free(frags[i] - ((UNALIGN >> i) & 1));
     }
     CHECK(liberasurecode_instance_destroy(desc) == 0, "destroy");
     WITNESS();
